@@ -4,5 +4,6 @@ CONSTANTS
   MaxOps = 0
   MaxWrite = 1
   Emit = TRUE
+  ReservePolicy = "fromend"
 CONSTRAINT EmitConfig
 CHECK_DEADLOCK FALSE
